@@ -282,7 +282,11 @@ func (p *Proxy) handleHTTP(r responder.Responder, proxyReq *http.Request) error 
 	metrics.Global.Requests.HTTPProxyRequests.Increment()
 
 	clientHd := headers.ParseHeaderDirective(proxyReq.Header)
-	clientHd.StripRegularConditionals(proxyReq.Header)
+	if proxyReq.Method == http.MethodGet || proxyReq.Method == http.MethodHead {
+		// The cache answers these itself (and revalidates with its own validators). The preconditions
+		// of any other request (If-Match on a PUT, ...) are for the origin and are relayed untouched.
+		clientHd.StripRegularConditionals(proxyReq.Header)
+	}
 
 	restoreRawPath(proxyReq)
 	key := cache.MakeFromRequest(proxyReq)
